@@ -33,7 +33,9 @@ func tagOf(id string) int64 {
 	return n
 }
 
-func feq(a, b float64) bool { return a == b || math.Abs(a-b) < 1e-8 || (math.IsNaN(a) && math.IsNaN(b)) }
+func feq(a, b float64) bool {
+	return a == b || math.Abs(a-b) < 1e-8 || (math.IsNaN(a) && math.IsNaN(b))
+}
 
 // Clk is the virtual clock shared with the binaries (probes advance it).
 var Clk *vclock.Clock
@@ -109,7 +111,9 @@ func FlowMod() *Mod[flow.Rule] {
 	m.Alphabet = func(r *rng.R, res []string, ref string) []*flow.Rule {
 		var al []*flow.Rule
 		for _, rs := range res {
-			iv := uint32(r.PickI(0, 0, 1000, 2000, 3000, 700, 10000, 20000))
+			// statistic intervals: default, multiples of the global bucket length (500 ms), and values that are
+			// not: inside [500, 10000] (1750, 1250, 9999: one bucket of their own) and outside (333, 20000, 12345)
+			iv := uint32(r.PickI(0, 0, 1000, 2000, 3000, 700, 10000, 20000, 1750, 1250, 9999, 333, 12345))
 			a := &flow.Rule{Resource: rs, Threshold: r.PickF(1000, 2000, 5000, 1e6), StatIntervalInMs: iv}
 			al = append(al, a)
 			a2 := *a // statistic-reusable with a, not equal
@@ -139,8 +143,16 @@ func FlowMod() *Mod[flow.Rule] {
 				func(x *flow.Rule) { x.ControlBehavior = -2 },
 				func(x *flow.Rule) { x.RelationStrategy = flow.RelationStrategy(r.PickI(-1, 2, 7)) },
 				func(x *flow.Rule) { x.RelationStrategy = flow.AssociatedResource; x.RefResource = "" },
-				func(x *flow.Rule) { x.TokenCalculateStrategy = flow.WarmUp; x.WarmUpPeriodSec = 0; x.WarmUpColdFactor = 3 },
-				func(x *flow.Rule) { x.TokenCalculateStrategy = flow.WarmUp; x.WarmUpPeriodSec = 5; x.WarmUpColdFactor = 1 },
+				func(x *flow.Rule) {
+					x.TokenCalculateStrategy = flow.WarmUp
+					x.WarmUpPeriodSec = 0
+					x.WarmUpColdFactor = 3
+				},
+				func(x *flow.Rule) {
+					x.TokenCalculateStrategy = flow.WarmUp
+					x.WarmUpPeriodSec = 5
+					x.WarmUpColdFactor = 1
+				},
 				func(x *flow.Rule) {
 					*x = *ma
 					switch r.Intn(7) {
@@ -254,8 +266,12 @@ func FlowMod() *Mod[flow.Rule] {
 		Clk.AddMs(2000)
 		// scope: loading and clearing rules of ANOTHER resource - the one the associated-resource rules of res
 		// refer to - through the per-resource path leaves the rules of res in force and fed as before
-		flow.LoadRulesOfResource(res+"-ref", []*flow.Rule{{ID: "999", Resource: res + "-ref", Threshold: 1e9}})
-		flow.ClearRulesOfResource(res + "-ref")
+		// - in every second case only: any later load rebuilds the index that feeds the independent windows of
+		// associated-resource rules, and a per-resource load that left the index stale must stay visible
+		if parts := strings.Split(res, "-"); len(parts) >= 2 && tagOf(parts[1])%2 == 1 {
+			flow.LoadRulesOfResource(res+"-ref", []*flow.Rule{{ID: "999", Resource: res + "-ref", Threshold: 1e9}})
+			flow.ClearRulesOfResource(res + "-ref")
+		}
 		for i := 0; i < 3; i++ { // traffic on the referenced resource (it has no rules of its own)
 			if e, b := sentinel.Entry(res + "-ref"); b == nil {
 				e.Exit()
